@@ -131,6 +131,13 @@ class Analyzer:
         return False
 
     def concrete_type_spec(self, spec: ast.AST) -> bool:
+        if isinstance(spec, ast.Name):
+            # a module-level constant holding the tuple of types:  _BASIS_TYPES = (Basis, MeshBasis)
+            for mod in self.repo.modules.values():
+                v = mod.assigns.get(spec.id)
+                if isinstance(v, ast.Tuple) and v.elts and all(attr_chain(e) for e in v.elts):
+                    spec = v
+                    break
         elts = spec.elts if isinstance(spec, ast.Tuple) else [spec]
         for e in elts:
             ch = attr_chain(e)
